@@ -25,7 +25,7 @@ func init() {
 				}
 				return []explore.Monitor{m}
 			},
-			budget(tier, 100*time.Second, 15*time.Minute),
+			budget(tier, 150*time.Second, 15*time.Minute),
 			"bank and auth state are carried into the fresh chain by funding the same balances (supply follows); the equality oracle covers the ecocredit and data module documents, which is what the property names")
 	}
 }
